@@ -98,7 +98,7 @@ def gen_extract(rnd, pack='*', with_defs=False):
     for _ in range(rnd.randint(2, 10)):
         ctx = rnd.choice(['top', 'top', 'top', 'text', 'text', 'unkarg', 'unkenv', 'knownenv', 'removedenv', 'item', 'comment',
                           'skip', 'verb', 'verbatim', 'unlisted', 'group', 'declarg', 'cell', 'usermacarg', 'math',
-                          'defarg', 'defbody', 'newcmd', 'mathtext'])
+                          'defarg', 'defbody', 'newcmd', 'mathtext', 'nested'])
         if ctx in ('declarg', 'newcmd') and ctx != kfmode:
             ctx = 'top'
         if with_defs and ctx == 'text' and rnd.random() < .5:
@@ -237,6 +237,22 @@ def gen_extract(rnd, pack='*', with_defs=False):
             in_decl[0] = False
             emit('}')
             kf[0] += 1
+        elif ctx == 'nested':
+            # a listed macro inside the first mandatory argument of a listed macro: both arguments are reported,
+            # each word once (the filter reports the inner one first; the order is not judged for such documents)
+            emit('\\' + rnd.choice(listed) + '{')
+            word(True)
+            emit(rnd.choice([' ', '\n']))
+            emit('\\' + rnd.choice(listed) + rnd.choice(['{', '{', ' {']))
+            word(True)
+            if rnd.random() < .3:
+                emit(' \\' + rnd.choice(listed) + '{')
+                word(True)
+                emit('}')
+            emit('}')
+            emit(rnd.choice([' ', '\n', '']))
+            word(True)
+            emit('}')
         elif ctx == 'mathtext':
             # a text part inside a formula is ordinary text
             a, b = rnd.choice([('\\[ a = b \\mbox{ ', ' } \\]'), ('$$ x \\mbox{', '} $$'), ('$y \\mbox{', '}$'),
@@ -349,6 +365,37 @@ class C18(core.Check):
         detail = dict(src=src, extr=extr, plain=t, want=''.join(c for c, _ in want), stderr=err)
         got_s = ''.join(c for c, _ in obs)
         want_s = ''.join(c for c, _ in want)
+        if 'nested' in ctxs:
+            # order not judged: every expected word exactly as often as expected, nothing else, each at its own place
+            import collections
+            rx = r'w\d+z|ydefdz|[A-Z]'
+            gtok = [(m.group(0), m.start()) for m in re.finditer(rx, got_s)]
+            left = re.sub(rx, '', got_s)
+            gc = collections.Counter(w for w, _ in gtok)
+            wc = collections.Counter(w for w, off in exp)
+            if gc == wc and not left:
+                first = {}
+                for w, i in gtok:
+                    first.setdefault(w, i)
+                for w, off in exp:
+                    if off is not None and wc[w] == 1 and \
+                            [q for _, q in obs[first[w]:first[w] + len(w)]] != list(range(off + 1, off + 1 + len(w))):
+                        detail['map'] = list(p)
+                        return dict(ok=False, nt=True, key='extract:position', cnt=cnt, obs=None, detail=detail)
+                if err:
+                    return dict(ok=False, nt=True, key='extract:stderr', cnt=cnt, obs=None, detail=detail)
+                return dict(ok=True, nt=bool(exp), key=None, cnt=cnt,
+                            obs=dict(src=tex.short(src, 200), extr=extr, plain=tex.short(t, 100)))
+            missing = sorted((wc - gc).elements())
+            extra = sorted((gc - wc).elements())
+            if missing and not extra and not left and set(missing) == set(nkf):
+                return dict(ok=False, nt=True, key='extract:nested-in-declared-macro-argument', cnt=cnt, obs=None, detail=detail)
+            if missing and not extra and not left and set(missing) == set(ukf):
+                return dict(ok=False, nt=True, key='extract:newcommand-macro-inside-listed-argument', cnt=cnt, obs=None,
+                            detail=detail)
+            detail.update(missing=missing, extra=extra, other=left[:60])
+            key = 'extract:text:' + ('leak' if extra or left else 'missing')
+            return dict(ok=False, nt=True, key=key, cnt=cnt, obs=None, detail=detail)
         if got_s != want_s:
             # classify: missing words that sit in a declared macro's argument -> D15 mechanism
             missing = [w for w, off in exp if w not in t]
@@ -492,7 +539,7 @@ class C18(core.Check):
              'with_define_file': 15, 'with_path_prefix': 30, 'with_reference_in_skipped_region': 30, 'with_no_specials': 20,
              'with_self_inclusion': 20, 'include_rand': 30}
         for c in ('top', 'unkarg', 'unkenv', 'knownenv', 'removedenv', 'item', 'comment', 'skip', 'verb', 'verbatim', 'group',
-                  'cell', 'usermacarg', 'mathtext'):
+                  'cell', 'usermacarg', 'mathtext', 'nested'):
             q['ctx_' + c] = 200
         if tier == 'thorough':
             q['include_exh3'] = 512
